@@ -221,6 +221,35 @@ def term_systematic(tier, rng):
     return behs
 
 
+def term_fine(tier, rng):
+    """API-call-granularity interleavings on the real code: one environment step right before the k-th API call (reads
+    included) of one reconcile of a canonical path - pods/volumes/instance leaving, NotReady, deletion of the other
+    object, the clock passing MinDrainTime / the termination time between a check and the write that relies on it."""
+    behs = []
+    for name, kind, cfg, path in term_paths():
+        if kind not in ("registered", "registered-uninitialized"):
+            continue
+        cfg = dict(cfg, logReads=True)
+        va = "" if cfg["orphanVA"] else next((p["name"] for p in cfg["pods"] if p["pv"]), None)
+        envs = [[{"a": "PodGone", "pod": "p1"}], [{"a": "PodBinds", "pod": "p2"}], [{"a": "InstanceGone"}],
+                [{"a": "InstanceVanishes"}], [{"a": "InstanceVanishes"}, {"a": "Ready", "ready": False}], [{"a": "Ready", "ready": False}],
+                [{"a": "DeleteClaim"}], [{"a": "DeleteNode"}], [{"a": "Tick", "d": 6}], [{"a": "TickToDeadline", "d": 1}],
+                [{"a": "TickPodStuck", "pod": "p1", "d": 0}], [{"a": "UserDeletePod", "pod": "p1", "grace": -1}], [{"a": "QAll"}]]
+        if va is not None:
+            envs.append([{"a": "VolumeDetach", "pod": va}])
+        pre = prelude(kind)
+        sites = [i for i, s in enumerate(path) if s["a"] in ("LcRec", "NodeRec")]
+        combos = [(i, k, e) for i in sites for k in range(1, 9) for e in envs]
+        if tier == "quick":
+            combos = rng.sample(combos, 14)
+        for i, k, e in combos:
+            steps = copy.deepcopy(path)
+            steps[i]["mid"] = [{"at": k, "steps": e}]
+            behs.append({"cfg": cfg, "steps": pre + steps + [{"a": "Settle"}],
+                         "tag": "fine:%s:%d@%d:%s" % (name, i, k, "+".join(x["a"] for x in e))})
+    return behs
+
+
 # ------------------------------------------------------------------------------------------------ Drain.tla
 DND = {"-": "-", "true": "true", "dur": "90s", "bogus": "bogus"}
 DRAIN_PRELUDE = [{"a": "LcRec"}, {"a": "NodeAppears", "ready": True, "unreg": True}, {"a": "LcRec"}, {"a": "LcRec"},
@@ -343,7 +372,7 @@ def simulate(run, module, cfg, nsim, depth=400):
     return hs
 
 
-def generate(run, nsim_term, nsim_drain, with_term_sys=True, with_drain_sys=True):
+def generate(run, nsim_term, nsim_drain, with_term_sys=True, with_drain_sys=True, with_fine=False):
     rng = random.Random(run.seed)
     behs = []
     if nsim_term:
@@ -360,6 +389,8 @@ def generate(run, nsim_term, nsim_drain, with_term_sys=True, with_drain_sys=True
         behs += term_systematic(run.tier, rng)
     if with_drain_sys:
         behs += drain_systematic(run.tier, rng)
+    if with_fine:
+        behs += term_fine(run.tier, rng)
     for i, b in enumerate(behs):
         b["idx"] = i
     return behs
